@@ -432,6 +432,11 @@ func (t InclusiveRangeStaticType) Equal(other StaticType) bool {
 		return false
 	}
 
+	// The base type of an inclusive range type has no element type
+	if t.ElementType == nil || otherRangeType.ElementType == nil {
+		return t.ElementType == nil && otherRangeType.ElementType == nil
+	}
+
 	return t.ElementType.Equal(otherRangeType.ElementType)
 }
 
